@@ -363,6 +363,16 @@ func runC08(c *Ctx, r *Report) {
 				okSort = true
 			}
 		}
+		// handed whole to a converting helper after the sort
+		if call, ok := n.(*ast.CallExpr); ok && call.Pos() > sortPos && p.Callee(tj, call) != sortFn {
+			for _, a := range call.Args {
+				if id, ok := ast.Unparen(a).(*ast.Ident); ok && sorted != nil && p.ObjOf(tj, id) == sorted {
+					if sl, ok := p.TypeOf(tj, call).Underlying().(*types.Slice); ok && strings.HasSuffix(sl.Elem().String(), "cid.Cid") {
+						okSort = true
+					}
+				}
+			}
+		}
 		// the counted form: sorted[i] read inside a loop after the sort
 		if ix, ok := n.(*ast.IndexExpr); ok && ix.Pos() > sortPos && len(enclosingLoops(p, tj, ix)) > 0 {
 			if id, ok := ast.Unparen(ix.X).(*ast.Ident); ok && sorted != nil && p.ObjOf(tj, id) == sorted {
